@@ -88,18 +88,25 @@ def units_bad(esc: str, multiline: bool) -> str | None:
     return None
 
 
-def oracle(s: str, multiline: bool, pre: str = '', post: str = '', cut: int | None = None, bits: int = BITS_ESC) -> str | None:
+VIAS = ('ctor', 'attr', 'switch')
+VIA_SUFFIX = {'attr': '-options-by-attribute', 'switch': '-options-switched-between-tokens'}
+
+
+def oracle(s: str, multiline: bool, pre: str = '', post: str = '', cut: int | None = None, bits: int = BITS_ESC, via: str = 'ctor') -> str | None:
     """The property on the real code. Returns None if it holds, else a short description.  Every call is bounded in time: a fault
-    that makes escape_text or the tokenizer loop is a failing input ('no result within ... s'), not a hung check."""
+    that makes escape_text or the tokenizer loop is a failing input ('no result within ... s'), not a hung check.
+    `via`: how the tokenizer gets its options (they are documented, settable attributes, and "with escapes enabled" does not say how):
+    'ctor' = constructor arguments; 'attr' = constructed with every option the other way round, then set through the attributes;
+    'switch' = constructed the other way round, the tokens of `pre` are read that way, THEN the attributes are set (between tokens)."""
     try:
         with U.time_limit():
-            return _oracle(s, multiline, pre, post, cut, bits)
+            return _oracle(s, multiline, pre, post, cut, bits, via)
     except U.ImplTimeout:
-        U.note_hang('oracle', (s, multiline, pre, post, cut, bits))
+        U.note_hang('oracle', (s, multiline, pre, post, cut, bits, via))
         return f'hang: no result within {U.IMPL_LIMIT_S:.0f} s of CPU time'
 
 
-def _oracle(s: str, multiline: bool, pre: str, post: str, cut: int | None, bits: int) -> str | None:
+def _oracle(s: str, multiline: bool, pre: str, post: str, cut: int | None, bits: int, via: str = 'ctor') -> str | None:
     from srctools.tokenizer import Token, Tokenizer, TokenSyntaxError, escape_text
     try:
         esc = escape_text(s, multiline)
@@ -110,13 +117,25 @@ def _oracle(s: str, multiline: bool, pre: str, post: str, cut: int | None, bits:
         return ub
     text = pre + '"' + esc + '"' + post
     data: Any = text if cut is None else [text[:cut], '', text[cut:]]
-    tk = Tokenizer(data, None, **U.opts_of_bits(bits))
+    pre_bits = bits
+    if via == 'switch' and pre:
+        try:        # the tokens of `pre` are read with every option the other way round - if that is possible at all
+            want_pre = list(Tokenizer(pre, None, **U.opts_of_bits(bits ^ U.ALL_OPTS)))
+            pre_bits = bits ^ U.ALL_OPTS
+        except TokenSyntaxError:
+            via = 'attr'
+    elif via == 'switch':
+        via = 'attr'
+    tk = Tokenizer(data, None, **U.opts_of_bits(pre_bits)) if via == 'switch' else U.make_tokenizer(Tokenizer, data, bits, via)
     try:
         if pre:
-            want_pre = list(Tokenizer(pre, None, **U.opts_of_bits(bits)))
+            want_pre = list(Tokenizer(pre, None, **U.opts_of_bits(pre_bits)))
             got_pre = [tk() for _ in want_pre]
             if got_pre != want_pre:
                 return 'prefix-tokens-changed'
+        if via == 'switch':
+            for k, v in U.opts_of_bits(bits).items():
+                setattr(tk, k, v)
         line0 = tk.line_num
         got = tk()
         if got != (Token.STRING, s):
@@ -139,23 +158,29 @@ def _oracle(s: str, multiline: bool, pre: str, post: str, cut: int | None, bits:
     return None
 
 
-def kv_oracle(s: str, multiline: bool) -> str | None:
-    """The escaped string as key and as value (plain and flagged line) of a KeyValues block, through Keyvalues.parse."""
+def kv_oracle(s: str, multiline: bool, via: str = 'ctor') -> str | None:
+    """The escaped string as key and as value (plain and flagged line) of a KeyValues block, through Keyvalues.parse.
+    via='attr': Keyvalues.parse is handed a tokenizer that was built with allow_escapes=False and had the option switched on
+    through the attribute afterwards (a parser that learns from a header whether the file uses escapes)."""
     try:
         with U.time_limit():
-            return _kv_oracle(s, multiline)
+            return _kv_oracle(s, multiline, via)
     except U.ImplTimeout:
-        U.note_hang('kv_oracle', (s, multiline))
+        U.note_hang('kv_oracle', (s, multiline, via))
         return f'hang: no result within {U.IMPL_LIMIT_S:.0f} s of CPU time'
 
 
-def _kv_oracle(s: str, multiline: bool) -> str | None:
+def _kv_oracle(s: str, multiline: bool, via: str = 'ctor') -> str | None:
     from srctools.keyvalues import Keyvalues
-    from srctools.tokenizer import escape_text
+    from srctools.tokenizer import Tokenizer, escape_text
     esc = escape_text(s, multiline)
     text = '"blk"\n{\n\t"' + esc + '" "' + esc + '"\n\t"k2" "' + esc + '" [flag]\n}\n'
     try:
-        kv = Keyvalues.parse(text, flags={'flag': True}, newline_keys=True, newline_values=True)
+        src: Any = text
+        if via != 'ctor':
+            src = Tokenizer(text, None, string_bracket=True, allow_escapes=False)      # the options Keyvalues.parse itself uses
+            src.allow_escapes = True
+        kv = Keyvalues.parse(src, flags={'flag': True}, newline_keys=True, newline_values=True)
         blk = kv.find_key('blk')
         got = [(c.real_name, c.value) for c in blk]
     except Exception as e:  # noqa: BLE001
@@ -281,34 +306,49 @@ def report(ck: Ck, s: str, ml: bool, why: str, ctx: dict | None = None) -> None:
     ctx = ctx or {}
     # at most CAP shrunk replays per class of failure (kind of failure x mode x how it was embedded): a fault that breaks
     # thousands of random strings must not produce thousands of replays (each one is shrunk, which costs oracle runs)
+    via = ctx.get('via', 'ctor')
     cls0 = (why.split(' ')[0] if why.startswith(('raw-', 'linebreak', 'dangling')) else 'roundtrip') + ('-multi' if ml else '-single') \
-        + ('-kvparse' if ctx.get('kv') else '-embedded' if ctx else '')
+        + ('-kvparse' if ctx.get('kv') else '-embedded' if set(ctx) - {'via'} else '') + VIA_SUFFIX.get(via, '')
     _REPORTED[cls0] = _REPORTED.get(cls0, 0) + 1
     if _REPORTED[cls0] > CAP:
         ck.count('search_failures_beyond_cap')
         return
-    kw = {k: ctx[k] for k in ('pre', 'post', 'cut', 'bits') if k in ctx}
+    kw = {k: ctx[k] for k in ('pre', 'post', 'cut', 'bits', 'via') if k in ctx}
     if ctx.get('kv'):
-        small = shrink(s, lambda t: kv_oracle(t, ml) is not None)
-        why = kv_oracle(small, ml) or why
+        small = shrink(s, lambda t: kv_oracle(t, ml, via) is not None)
+        why = kv_oracle(small, ml, via) or why
+        if via != 'ctor' and kv_oracle(small, ml) is not None:       # fails with constructor options too: how the options are set is irrelevant
+            ctx = {'kv': True}
+            via = 'ctor'
     else:
         small = shrink(s, lambda t: oracle(t, ml, **kw) is not None)
         why = oracle(small, ml, **kw) or why
-    # does the bare form fail too? then the context is irrelevant
-    if ctx and oracle(small, ml) is not None:
-        ctx = {}
-        small = shrink(small, lambda t: oracle(t, ml) is not None)
-        why = oracle(small, ml) or why
+        # does the bare form (constructor options, no context) fail too? then the context is irrelevant
+        if ctx and oracle(small, ml) is not None:
+            ctx = {}
+            via = 'ctor'
+            small = shrink(small, lambda t: oracle(t, ml) is not None)
+            why = oracle(small, ml) or why
+        elif via != 'ctor':
+            kw0 = {k: v for k, v in kw.items() if k != 'via'}
+            if oracle(small, ml, **kw0) is not None:                  # the context alone does it
+                ctx, via = dict(kw0), 'ctor'
+            elif via == 'attr' and oracle(small, ml, via='attr') is not None:   # setting the options by attribute alone does it
+                ctx = {'via': 'attr'}
+                small = shrink(small, lambda t: oracle(t, ml, via='attr') is not None and oracle(t, ml) is None)
+                why = oracle(small, ml, via='attr') or why
     from srctools.tokenizer import escape_text
     mode = 'multi' if ml else 'single'
     cls = '+'.join(cname(c) for c in small) or 'empty'
     kind = why.split(' ')[0] if why.startswith(('raw-', 'linebreak', 'dangling')) else 'roundtrip'
-    key = f'{kind}-{mode}-{cls}' + ('-kvparse' if ctx.get('kv') else '-embedded' if ctx else '')
+    key = f'{kind}-{mode}-{cls}' + ('-kvparse' if ctx.get('kv') else '-embedded' if set(ctx) - {'via'} else '') + VIA_SUFFIX.get(via, '')
     try:
         esc = escape_text(small, ml)
     except Exception as e:  # noqa: BLE001
         esc = f'<{type(e).__name__}>'
-    ck.violation(key, f'escape_text({small!r}, multiline={ml}) = {esc!r}: {why}',
+    how = {'attr': ' [tokenizer built with every option the other way round, options then set through the attributes]',
+           'switch': ' [options set through the attributes after the tokens of the prefix were read]'}.get(via, '')
+    ck.violation(key, f'escape_text({small!r}, multiline={ml}) = {esc!r}: {why}{how}',
                  {'s': [ord(c) for c in small], 'multiline': ml, 'context': ctx, 'why': why,
                   'how': 'checks.c02.oracle("".join(map(chr, s)), multiline, **context)'})
 
@@ -335,6 +375,21 @@ def search(ck: Ck, escalate: bool) -> None:
             if len(s) >= 2:
                 ck.seen(('x', ml, s))
     ck.hist('search', f'exhaustive alphabet {len(ESC_ALPHA)} up to length {n}, both modes', 2 * sum(len(ESC_ALPHA) ** k for k in range(n + 1)))
+    # (a') the same with the options set through the public attributes after construction (every option was the other way round
+    #      in the constructor), and through Keyvalues.parse on such a tokenizer
+    for ml in (False, True):
+        for s in U.strings_upto(ESC_ALPHA, n - 1):
+            ck.count('search_exhaustive_options_by_attribute')
+            r = oracle(s, ml, via='attr')
+            if r is not None:
+                report(ck, s, ml, r, {'via': 'attr'})
+            if len(s) <= 2:
+                r = kv_oracle(s, ml, 'attr')
+                if r is not None:
+                    report(ck, s, ml, r, {'kv': True, 'via': 'attr'})
+            if len(s) >= 2:
+                ck.seen(('xa', ml, s))
+    ck.hist('search', f'exhaustive alphabet {len(ESC_ALPHA)} up to length {n - 1}, both modes, options set by attribute', 2 * sum(len(ESC_ALPHA) ** k for k in range(n)))
     # (b) random longer strings: full Unicode incl. surrogates, embedded, chunked, other option vectors, Keyvalues.parse
     rng: random.Random = ck.rng
     contexts = [('', ''), ('"key" ', ' [flag]\n'), ('\r', '\n"next"'), ('{ ', ' }'), ('"a" "b"\r\n\t', '\r\n"c"'),
@@ -362,21 +417,26 @@ def search(ck: Ck, escalate: bool) -> None:
             pre, post = '', ''
         total = len(pre) + len(post) + 2 + 2 * L
         cut = rng.randint(0, total) if rng.random() < 0.5 else None
+        via = VIAS[i % 3]
         ctx = {'pre': pre, 'post': post, 'cut': cut, 'bits': bits}
+        if via != 'ctor':
+            ctx['via'] = via
         ck.count('search_random')
         ck.hist('random_len', L)
         ck.hist('random_pool', pool)
         ck.hist('random_context', repr((pre, post)))
-        r = oracle(s, ml, pre, post, cut, bits)
+        ck.hist('random_options_set_by', via)
+        r = oracle(s, ml, pre, post, cut, bits, via)
         if r is not None:
             report(ck, s, ml, r, ctx)
         if any(c in NAMES for c in s):
-            ck.seen(('r', ml, s, pre, cut, bits))
+            ck.seen(('r', ml, s, pre, cut, bits, via))
         if i % 4 == 0:
             ck.count('search_kvparse')
-            r = kv_oracle(s, ml)
+            kvia = 'attr' if i % 8 == 0 else 'ctor'
+            r = kv_oracle(s, ml, kvia)
             if r is not None:
-                report(ck, s, ml, r, {'kv': True})
+                report(ck, s, ml, r, {'kv': True, 'via': kvia} if kvia != 'ctor' else {'kv': True})
     ck.sample({'search_example': {'s': 'a\\"\n', 'escape_text single': 'a\\\\\\"\\n', 'tokens': '[(STRING, s)] then EOF'}})
 
 
@@ -577,6 +637,52 @@ def corr_quoted(ck: Ck, escalate: bool) -> None:
                   + ('agree' if not bad else f'{len(bad)} shards disagree; {detail}'))
 
 
+SYNTAX_ALPHA = ['"', '\\', 'n', '[', ']', '(', ')', '#', '/', '*', ':', '+', '\n', 'x', ' ']
+
+
+def _by_attribute_shard(bits: int) -> tuple[int, list]:
+    bad = []
+    cnt = 0
+    for w in U.strings_upto(SYNTAX_ALPHA, 3):
+        cnt += 1
+        a = U.impl_results(w, bits, len(w) + 2)
+        b = U.impl_results(w, bits, len(w) + 2, via='attr')
+        if a != b and len(bad) < 3:
+            bad.append((bits, w, a, b))
+    return cnt, bad
+
+
+def corr_options_by_attribute(ck: Ck) -> None:
+    """The model takes the option vector as a parameter of every call (`get_token T o ...`); the class reads seven public,
+    documented, settable attributes.  Tie: a tokenizer whose options were set through the attributes after construction (every
+    option was the other way round in the constructor) gives the same trace as one that got them as constructor arguments - all
+    texts over a 15-character syntax alphabet up to length 3, for the default vector, each single-option change of it, all on,
+    all off and six random vectors (thorough: all 128)."""
+    if ck.thorough:
+        vecs = list(range(128))
+    else:
+        rng = ck.rng
+        vecs = sorted({BITS_ESC, 0, 127} | {BITS_ESC ^ (1 << i) for i in range(7)} | {rng.randrange(128) for _ in range(6)})
+    res = U.pool_map(_by_attribute_shard, vecs)
+    bad = [b for _, bs in res for b in bs]
+    n = sum(c for c, _ in res)
+    ck.count('options_by_attribute_cases', n)
+    ck.hist('correspondence', f'options by attribute vs by constructor: {len(vecs)} option vectors x texts up to length 3 over {len(SYNTAX_ALPHA)} characters', n)
+    detail = ''
+    if bad:
+        bits, w, a, b = bad[0]
+        opts = U.opts_of_bits(bits)
+        detail = (f'; first: text={w!r} options={ {k: v for k, v in opts.items()} } by constructor: {U.decode_results(a)} '
+                  f'set by attribute afterwards: {U.decode_results(b)}')
+        ck.extra['options_by_attribute_disagreements'] = [{'text': w, 'option_bits': bits, 'by_constructor': U.decode_results(a),
+                                                           'by_attribute': U.decode_results(b)} for bits, w, a, b in bad[:10]]
+        ck.tie_broken.append('a Tokenizer whose options are set through the public attributes after construction behaves differently from one '
+                             'that got them as constructor arguments (the model takes the options as a parameter of every call)')
+    ck.obligation('correspondence:options_by_attribute', not bad,
+                  f'Tokenizer(text, **opts) vs Tokenizer(text, **opposite) followed by setattr of every option: {n} cases '
+                  f'({len(vecs)} option vectors, token kind/value/line_num/_last_was_cr/error): ' + ('agree' if not bad else f'{len(bad)} disagreements (capped)' + detail))
+
+
 def _quoted_shard(sh) -> tuple[int, int, dict]:
     bits, pref, k = sh
     p = ''.join(map(chr, pref))
@@ -666,6 +772,7 @@ def _run(ck: Ck) -> None:
         corr_codepoints(ck)
         corr_escape_strings(ck, escalate)
         corr_quoted(ck, escalate)
+        corr_options_by_attribute(ck)
         U.join_theorems(ck, th)
     search(ck, escalate)
     if ck.violations:
@@ -691,12 +798,17 @@ def replay(data: dict) -> int:
     if r.get('history'):
         print(f'history: first {r["history"]} (text {dict(POISONS).get(r["history"])!r}), then a new tokenizer')
         run_poison(r['history'])
+    if ctx.get('via'):
+        print({'attr': 'options: the tokenizer is built with every option the other way round, then each option is set through its attribute',
+               'switch': 'options: built the other way round, the tokens of the prefix are read, then each option is set through its attribute'}[ctx['via']])
     if ctx.get('kv'):
-        res = kv_oracle(s, ml)
+        res = kv_oracle(s, ml, ctx.get('via', 'ctor'))
     else:
-        kw = {k: ctx[k] for k in ('pre', 'post', 'cut', 'bits') if k in ctx}
+        kw = {k: ctx[k] for k in ('pre', 'post', 'cut', 'bits', 'via') if k in ctx}
         try:
-            print('tokens:', list(Tokenizer(kw.get('pre', '') + '"' + esc + '"' + kw.get('post', ''))))
+            tk = U.make_tokenizer(Tokenizer, kw.get('pre', '') + '"' + esc + '"' + kw.get('post', ''), kw.get('bits', BITS_ESC),
+                                  'attr' if ctx.get('via') == 'attr' else 'ctor')
+            print('tokens:', list(tk))
         except Exception as e:  # noqa: BLE001
             print('tokenizer raised', repr(e))
         if r.get('history'):
